@@ -119,6 +119,16 @@ def gen_program(rng, idx):
         actions += [lambda r, sm=sm: [('print', call(sm, I(r.randint(0, 3))))],
                     lambda r, bump=bump, off=off: [('print', call(bump)), ('print', V(off))],
                     lambda r, off=off: [('asg', off, None, ('bin', '+', V(off), I(5)))]]
+        # the counter's name in the STEP is the counter (the step runs inside the loop): the function reads nothing of the
+        # outer variable, so it does not capture it (T1 compares the capture list with Compile.free_vars)
+        if rng.random() < 0.6:
+            dbl = 'dbl%d' % idx
+            stp = rng.choice([V(off), ('bin', '+', V(off), I(1))])
+            prog.append(('asg', dbl, None, fn([], 'int', [
+                ('asg', 'acc', None, I(0)),
+                ('from', I(1), I(rng.choice([9, 20])), rng.random() < 0.5, stp, off, False, [('asg', 'acc', None, ('bin', '+', ('bin', '*', V('acc'), I(3)), V(off)))]),
+                ('ret', V('acc'))])))
+            actions += [lambda r, dbl=dbl: [('print', call(dbl))]]
         # the same with a `modify` of the captured variable BEFORE the loop: that statement writes the captured variable, it
         # does not declare a variable of this function, so the counter is still a loop-local and the reads / modify after
         # the loop mean the captured variable
@@ -269,6 +279,32 @@ MODIFY_ALIAS_CASES = [
 ]
 
 
+# ---- "a function that captures nothing is not a closure": what a function captures is decided by what its body MEANS.  The
+# step of a from loop is evaluated inside the loop, where the counter's name is the counter: a step that mentions it reads
+# the counter, not a same-named variable of an enclosing scope (the bounds are evaluated outside and do read that variable)
+CLOSURE_FLAG_CASES = [
+    ("step-names-counter", "i = 3\nf = fn() {\n  from 1 to 9 step i, i {\n    print i\n  }\n}\nprint f.is_closure()\nf()\nprint i\n", ["false", "1", "2", "4", "8", "3"]),
+    ("step-expression-names-counter", "i = 3\nf = fn() -> int {\n  t = 0\n  from 0 through 6 step i + 1, i {\n    t = t * 10 + i\n  }\n  return t\n}\nprint f.is_closure()\nprint f()\n", ["false", "13"]),
+    ("step-names-counter-in-factory", "mk = fn(i: int) -> fn() -> int {\n  g = fn() -> int {\n    t = 0\n    from 1 to 20 step i, i {\n      t = t + i\n    }\n    return t\n  }\n  return g\n}\nh = mk(5)\nprint h.is_closure()\nprint h()\n", ["false", "31"]),
+    ("step-names-other-variable", "i = 3\nf = fn() {\n  from 1 to 9 step i, j {\n    print j\n  }\n}\nprint f.is_closure()\nf()\n", ["true", "1", "4", "7"]),
+    ("lower-bound-names-outer", "i = 3\nf = fn() {\n  from i to 6, i {\n    print i\n  }\n  print i\n}\nprint f.is_closure()\nf()\n", ["true", "3", "4", "5", "3"]),
+    ("body-names-counter-only", "i = 3\nf = fn() {\n  from 0 to 2, i {\n    print i\n  }\n}\nprint f.is_closure()\nf()\nprint i\n", ["false", "0", "1", "3"]),
+    ("captures-nothing", "f = fn(a: int) -> int {\n  b = a + 1\n  return b\n}\nprint f.is_closure()\nprint f(1)\n", ["false", "2"]),
+    ("captures-by-read", "x = 1\nf = fn() -> int {\n  return x\n}\nprint f.is_closure()\nx = 5\nprint f()\n", ["true", "5"]),
+]
+
+# ---- a closure stored where it can reach itself: in the list it captured, in the captured variable another function
+# installs it into with `modify`; the owner of that variable goes on with ordinary statements afterwards
+SELF_CAPTURE_CASES = [
+    ("stored-in-captured-list", "variable-index", "handlers: [fn() -> int...] = []\nhandlers.push(fn() -> int {\n  return handlers.len()\n})\nprint (handlers[0])()\nk = 0\nprint (handlers[k])()\nprint \"done\"\n", ["1", "1", "done"]),
+    ("stored-in-captured-list", "from-loop", "handlers: [fn() -> int...] = []\nhandlers.push(fn() -> int {\n  return handlers.len() * 10\n})\nfrom 0 to 2, i {\n  handlers.push(handlers[0])\n  print (handlers[0])() + i\n}\nprint \"done\"\n", ["20", "31", "done"]),
+    ("installed-by-modify", "variable-index", "count = 0\ntick = fn() -> int {\n  return 0\n}\nmk = fn() {\n  next = fn() -> int {\n    modify count = count + 1\n    if count < 3 {\n      return tick()\n    }\n    return count\n  }\n  modify tick = next\n}\nmk()\nprint tick()\nxs: [int...] = [10, 20, 30]\nk = 1\nprint xs[k]\nprint count\nprint \"done\"\n", ["3", "20", "3", "done"]),
+    ("installed-by-modify", "from-loop", "count = 0\ntick = fn() -> int {\n  return 0\n}\nmk = fn() {\n  next = fn() -> int {\n    modify count = count + 1\n    if count % 2 == 1 {\n      return tick()\n    }\n    return count\n  }\n  modify tick = next\n}\nmk()\nfrom 0 to 2 {\n  print tick()\n}\nprint count\n", ["2", "4", "4"]),
+    ("installed-by-modify", "list-literal", "count = 0\ntick = fn() -> int {\n  return 0\n}\nmk = fn() {\n  next = fn() -> int {\n    modify count = count + 1\n    if count % 2 == 1 {\n      return tick()\n    }\n    return count\n  }\n  modify tick = next\n}\nmk()\nl: [int...] = [tick(), tick()]\nprint l\nprint count\n", ["[2, 4]", "4"]),
+    ("owner-function-local", "from-loop", "mk = fn() -> int {\n  step = fn(n: int) -> int {\n    return n\n  }\n  step = fn(n: int) -> int {\n    if n == 0 {\n      return 0\n    }\n    return step(n - 1) + 1\n  }\n  t = 0\n  from 0 to 3, i {\n    t = t + step(i)\n  }\n  return t\n}\nprint mk()\nprint mk()\n", ["3", "3"]),
+]
+
+
 def run(ctx):
     ok = core.coq_props(ctx, "Props/C07.v")
     binary = core.build_repo()
@@ -312,10 +348,27 @@ def run(ctx):
             ctx.report("modify-is-not-a-declaration:" + kind, "what follows a `modify` of a captured variable in the same function (%s): %s, expected %r: %s"
                        % (form, "the program is refused" if refused else "printed %r (exit %d)" % (got, rc), exp, (out + err)[-300:].replace("\n", " ")),
                        {"program": src, "expected": exp, "observed": got, "rc": rc, "stderr": err[-600:], "how": "mscript run main.ms -q"})
+    for (form, src, exp), (rc, out, err) in zip(CLOSURE_FLAG_CASES, programs.pmap(one_view, [(c[1], c[2]) for c in CLOSURE_FLAG_CASES])):
+        got = out.split("\n")[:-1]
+        if rc != 0 or got != exp:
+            refused = "Did not compile" in (out + err)
+            kind = "loop-step-resolved-outside-the-loop" if form.startswith("step-") else "is-closure"
+            ctx.report("captures-nothing-is-not-a-closure:" + kind, "what a function captures follows what its body means (%s): %s, expected %r: %s"
+                       % (form, "the program is refused" if refused else "printed %r (exit %d)" % (got, rc), exp, (out + err)[-300:].replace("\n", " ") if rc != 0 else ""),
+                       {"program": src, "expected": exp, "observed": got, "rc": rc, "stderr": err[-600:], "how": "mscript run main.ms -q"})
+    for (form, then, src, exp), (rc, out, err) in zip(SELF_CAPTURE_CASES, programs.pmap(one_view, [(c[2], c[3]) for c in SELF_CAPTURE_CASES])):
+        got = out.split("\n")[:-1]
+        if rc != 0 or got != exp:
+            refused = "Did not compile" in (out + err)
+            ctx.report("closure-reachable-from-its-own-capture:" + then, "a closure reachable from a variable it captured (%s), whose owner then runs %s: %s, expected %r: %s"
+                       % (form, then, "the program is refused" if refused else "printed %r (exit %d)" % (got, rc), exp, (out + err)[-300:].replace("\n", " ")),
+                       {"program": src, "expected": exp, "observed": got, "rc": rc, "stderr": err[-600:], "how": "mscript run main.ms -q"})
+    ctx.cov["closure_flag_cases"] = len(CLOSURE_FLAG_CASES)
+    ctx.cov["self_capture_cases"] = len(SELF_CAPTURE_CASES)
     ctx.cov["view_cases"] = len(vcs)
     ctx.cov["capture_position_cases"] = len(cps)
     ctx.cov["modify_alias_cases"] = len(MODIFY_ALIAS_CASES)
-    ctx.cov["evaluations"] = st["programs"] + len(vcs) + len(cps) + len(MODIFY_ALIAS_CASES)
+    ctx.cov["evaluations"] = st["programs"] + len(vcs) + len(cps) + len(MODIFY_ALIAS_CASES) + len(CLOSURE_FLAG_CASES) + len(SELF_CAPTURE_CASES)
     ctx.cov["distinct_nontrivial"] = len(set(r["proj"]["files"]["main.ms"] for r in results if r["status"] == "ran" and "modify" in r["proj"]["files"]["main.ms"]))
     ctx.cov["rule"] = ("closure programs: 1-3 owners (module-level variable with reader/writer/shadowing closures; factory returning a stepping closure that "
                        "shares a cell with a second closure, instantiated twice; depth-3 nesting with a modify from the innermost function), random histories of "
@@ -327,5 +380,5 @@ def run(ctx):
     ctx.cov["trusted_base"] = ["Coq 8.16.1 kernel; no axioms", "extraction + drivers", "hooks H1/H3"]
     ctx.assumptions = ["Lang/Eval.v (lexical scoping, capture by reference, modify writes the captured cell, plain assignment declares a local) is the specification",
                        "capture lists: T1 compares the make_function arguments of the real compiler with Compile.free_vars as sets"]
-    spec_failed = any(v[0].startswith(("semantics:", "captured-variable:", "modify-is-not-a-declaration:")) for v in ctx.viol)
+    spec_failed = any(v[0].startswith(("semantics:", "captured-variable:", "modify-is-not-a-declaration:", "captures-nothing-is-not-a-closure:", "closure-reachable-from-its-own-capture:")) for v in ctx.viol)
     core.proof_or_search(ctx, ok, ["C07 obligations"], spec_failed)
